@@ -57,6 +57,9 @@ type result struct {
 
 func run(r *h.Run, sc scenario) result {
 	var res result
+	if r.TooMany() {
+		return res
+	}
 	b := bh.NewBroker()
 	b.Mon.Inner.ClientInflightMessages = sc.Window
 	defer b.Shutdown()
